@@ -17,12 +17,12 @@ func witnessSpecs() []*Spec {
 	return []*Spec{
 		{ID: 1, Kind: "key", Key: 0},
 		{ID: 2, Kind: "pn", Signer: 1, Nonce: 1},
-		{ID: 3, Kind: "claim", Signer: 1, PN: 2, CType: "set", Attr: "i0", Val: "s1", Date: 1000},
-		{ID: 4, Kind: "del", Signer: 1, Target: 2, Date: 2000},
+		{ID: 3, Kind: "claim", Signer: 1, PN: 2, CType: "set", Attr: "i0", Val: "s1", Date: 1000 * sec},
+		{ID: 4, Kind: "del", Signer: 1, Target: 2, Date: 2000 * sec},
 		{ID: 5, Kind: "opaque", Nonce: 5, Size: 40},
 		{ID: 6, Kind: "opaque", Nonce: 6, Size: 50},
 		{ID: 7, Kind: "file", Name: 1, Parts: []Part{{'c', 5, 40}, {'c', 6, 50}}},
-		{ID: 8, Kind: "del", Signer: 1, Target: 7, Date: 3000},
+		{ID: 8, Kind: "del", Signer: 1, Target: 7, Date: 3000 * sec},
 	}
 }
 
@@ -48,7 +48,7 @@ func Witnesses() []Witness {
 	return []Witness{
 		{"F-C05-1", mk("open mem 0", "src 1", "recv 1", "src 4", "recv 4", "restart", "src 2", "recv 2", "dump"),
 			func(o []string) (bool, string) {
-				return !strings.Contains(last(o), "deleted|b2,2000,b4"), "delete claim, restart, its target: final rows " + last(o)
+				return !strings.Contains(last(o), "deleted|b2,2000000000000,b4"), "delete claim, restart, its target: final rows " + last(o)
 			}},
 		{"F-C05-2", mk("open mem 0", "src 7", "recv 7", "src 5", "recv 5", "restart", "src 6", "recv 6", "dump"),
 			func(o []string) (bool, string) {
@@ -69,9 +69,32 @@ func Witnesses() []Witness {
 	}
 }
 
+// EqualDateWitness: two `set tag` claims of one signer on one permanode with the same claim date, delivered
+// against their blobref order (F-C06-4: before 83d40e9 the live corpus kept them in arrival order).
+func EqualDateWitness() Witness {
+	b := &setBuilder{}
+	k := b.key(0)
+	p := b.pn(k, 1)
+	d := 5000*sec + 500000001
+	b.claimAt(k, p, "set", "i0", "s4", d)
+	b.claimAt(k, p, "set", "i0", "s5", d)
+	set, err := b.finish("equal-date-witness", seq(1, 4))
+	if err != nil {
+		panic(err)
+	}
+	var ops []string
+	for _, sp := range set.Specs {
+		ops = append(ops, sp.DefLine())
+	}
+	ops = append(ops, "open mem 1", "src 1", "recv 1", "src 2", "recv 2", "src 4", "recv 4", "src 3", "recv 3", "obs", "obsr")
+	return Witness{"F-C06-4", ops, func(o []string) (bool, string) {
+		return o[len(o)-2] != last(o), "equal claim dates, arrival against the blobref order: live " + o[len(o)-2] + " reload " + last(o)
+	}}
+}
+
 // Probes re-executes the witnesses of the findings of property prefix (F-C05 / F-C06).
 func ProbesFor(r *hk.Run, prefix string) {
-	for _, w := range Witnesses() {
+	for _, w := range append(Witnesses(), EqualDateWitness()) {
 		if !strings.HasPrefix(w.ID, prefix) {
 			continue
 		}
